@@ -55,7 +55,8 @@ def budget(tier):
 
 
 def strategy(tier):
-    return g.cases()
+    # share of the paired mapping / statistics runs: ~4+3 per 160 cases (about a quarter of the CPU time)
+    return g.cases((4, 3))
 
 
 def enumerate_specs(tier):
